@@ -34,10 +34,38 @@ def globalsMet (W : World) (i : Nat) : Bool :=
          | some _, none => false))
   | _, _ => false
 
+/-- the same count with the signer of a commit in place of the entry's signer -/
+def authenticatedCountS (W : World) (P : Policy) (i : Nat) (signer : Option KeyId) : Nat :=
+  match W.log[i]? with
+  | none => 0
+  | some e =>
+    match targetCommit e with
+    | none => 0
+    | some tc =>
+      let A := W.attBefore i
+      let frm := W.fromId e.ref i
+      (P.allPrincipals.filter (fun d => contributed P A e.ref frm (W.treeOf tc) signer d)).length
+
+/-- every global threshold rule of the state in force that matches a file changed by a commit newly
+introduced by entry `i` is met by the principals authenticated for that commit — whether or not a
+delegation rule protects any file -/
+def fileGlobalsMet (W : World) (i : Nat) : Bool :=
+  match W.log[i]?, W.policyBefore i with
+  | some e, some P =>
+    match targetCommit e with
+    | none => false
+    | some tc =>
+      (W.commitsBetween tc (W.fromId e.ref i)).all (fun c =>
+        let cs := match W.commits[c]? with | some x => x.signer | none => none
+        (W.changedPaths c).all (fun path =>
+          P.root.globals.all (fun g => !g.isThreshold || !g.matches ("file:" ++ path) ||
+            decide (g.threshold ≤ (W.authenticatedCountS P i cs : Int)))))
+  | _, _ => false
+
 /-- C11 (additive part) for an accepted verification of `ref`: every unskipped reference entry meets
 every matching global rule of the state in force before it. -/
 def c11Globals (W : World) (ref : String) (first last : Nat) : Bool :=
-  (W.refEntriesIn ref first last).all (fun j => W.skipped j || W.globalsMet j)
+  (W.refEntriesIn ref first last).all (fun j => W.skipped j || (W.globalsMet j && W.fileGlobalsMet j))
 
 end World
 end Gittuf
